@@ -618,9 +618,58 @@ func Controls(b *ssa.BasicBlock, target *ssa.BasicBlock) (bool, int) {
 	if len(b.Succs) != 2 {
 		return false, -1
 	}
+	// "in the same iteration": a path may not re-enter, through its back edge,
+	// the header of a loop that contains target
 	avoid := map[*ssa.BasicBlock]bool{b: true}
-	r0 := b.Succs[0] == target || BlockReaches(b.Succs[0], target, avoid)
-	r1 := b.Succs[1] == target || BlockReaches(b.Succs[1], target, avoid)
+	headers := map[*ssa.BasicBlock]bool{}
+	for _, h := range b.Parent().Blocks {
+		if h == target || !h.Dominates(target) {
+			continue
+		}
+		isHeader := false
+		for _, p := range h.Preds {
+			if h.Dominates(p) {
+				isHeader = true
+			}
+		}
+		if isHeader && BlockReaches(target, h, nil) {
+			headers[h] = true
+		}
+	}
+	reaches := func(a *ssa.BasicBlock) bool {
+		seen := map[*ssa.BasicBlock]bool{}
+		var walk func(x *ssa.BasicBlock) bool
+		walk = func(x *ssa.BasicBlock) bool {
+			if x == target {
+				return true
+			}
+			if seen[x] {
+				return false
+			}
+			seen[x] = true
+			for _, s := range x.Succs {
+				if avoid[s] && s != target {
+					continue
+				}
+				if headers[s] && s.Dominates(x) {
+					continue // back edge of a loop around target
+				}
+				if walk(s) {
+					return true
+				}
+			}
+			return false
+		}
+		return walk(a)
+	}
+	first := func(s *ssa.BasicBlock) bool {
+		if headers[s] && s.Dominates(b) && s != target {
+			return false
+		}
+		return reaches(s)
+	}
+	r0 := first(b.Succs[0])
+	r1 := first(b.Succs[1])
 	if r0 == r1 {
 		return false, -1
 	}
